@@ -622,7 +622,7 @@ func genRefinement(ld *Loader, specs *Specs, rf *Refinement) *FuncVC {
 		probe := tr.st.clone()
 		var binders []string
 		for i, name := range defined {
-			sort := comps(ghostType(specs.Ghosts[name]))[0].Sort
+			sort := ghostSort(specs.Ghosts[name])
 			bv := Term{fmt.Sprintf("g!q%d_%s", i, name), sort}
 			probe.w["G$"+name] = bv
 			binders = append(binders, fmt.Sprintf("(%s %s)", bv.S, sort))
@@ -631,7 +631,7 @@ func genRefinement(ld *Loader, specs *Specs, rf *Refinement) *FuncVC {
 		e.oblige(&Obl{Name: label + "#coupling-definable", Kind: "refinement", Props: props, Cond: tTrue,
 			Goal: Term{fmt.Sprintf("(exists (%s) %s)", strings.Join(binders, " "), body.S), SBool}, Pos: rf.Where, Fn: label})
 		for _, name := range defined {
-			sort := comps(ghostType(specs.Ghosts[name]))[0].Sort
+			sort := ghostSort(specs.Ghosts[name])
 			tr.st.set("G$"+name, e.fresh("def$"+name, sort))
 		}
 		e.assume(tTrue, mkEnv(tr.st).evalBool(rf.Coupling))
